@@ -769,7 +769,48 @@ def lean_str(s):
     return '"' + s.replace("\\", "\\\\").replace('"', '\\"') + '"'
 
 
+SOURCES = ["src/kernel/gp/src/holdout_validation.cc", "src/kernel/gp/src/holdout_validation.h",
+           "src/kernel/gp/src/dss.cc", "src/kernel/gp/src/dss.h", "src/kernel/gp/src/dataframe.h",
+           "src/kernel/gp/src/search.tcc", "src/kernel/gp/src/search.h", "src/kernel/search.tcc", "src/kernel/search.h",
+           "src/kernel/evolution.tcc", "src/kernel/evolution.h", "src/kernel/validation_strategy.h",
+           "src/kernel/random.h", "src/kernel/log.h", "src/utility/contracts.h", "src/utility/facultative.h",
+           "src/kernel/environment.h", "src/kernel/evaluator.h", "src/kernel/vita.h"]
+
+
+def stamp():
+    import hashlib
+    h = hashlib.sha256()
+    for f in SOURCES:
+        try:
+            h.update(open(os.path.join(X.REPO, f), "rb").read())
+        except OSError:
+            h.update(b"missing " + f.encode())
+    for f in (os.path.abspath(__file__), os.path.join(X.HERE, "tu", TU), os.path.join(X.HERE, "cxx2lean.py")):
+        h.update(open(f, "rb").read())
+    return h.hexdigest()
+
+
 def main():
+    # the extraction is a pure function of these sources: skip the clang runs when nothing changed
+    sdir = os.path.join(ROOT, "build")
+    os.makedirs(sdir, exist_ok=True)
+    sfile = os.path.join(sdir, "c16_translate.stamp")
+    key = stamp()
+    if os.path.exists(OUT) and os.path.exists(sfile):
+        st = open(sfile).read().split()
+        import hashlib
+        if len(st) == 2 and st[0] == key and st[1] == hashlib.sha256(open(OUT, "rb").read()).hexdigest():
+            print("ok (unchanged sources, cached)")
+            return 0
+    rc = translate()
+    if rc == 0:
+        import hashlib
+        with open(sfile, "w") as f:
+            f.write(key + " " + hashlib.sha256(open(OUT, "rb").read()).hexdigest())
+    return rc
+
+
+def translate():
     fns = [("holdoutInit", "vita::holdout_validation::init", "init"),
            ("dssInit", "vita::dss::init", "init"),
            ("dssShake", "vita::dss::shake", "shake"),
